@@ -194,8 +194,10 @@ Proof.
 Qed.
 
 (* ---------- the syntax-directed part ---------- *)
+Section Forms.
 Variable Sg : sigma.
 Definition sig_ok (sg : fsig) : Prop := oty_ok (fs_type sg) /\ Forall (fun p => oty_ok (nty p)) (fs_params sg).
+Definition sigma_ok : Prop := forall fn sg, sig_lookup Sg fn = Some sg -> sig_ok sg.
 Hypothesis HSg : forall fn sg, sig_lookup Sg fn = Some sg -> sig_ok sg.
 
 Ltac ok := cbn [oty_ok snd]; eauto using aset_ok, aremove_ok, aset_aset_ok, ctx_ok_nil.
@@ -340,5 +342,225 @@ Proof.
     + intros g shadow p bs seen Hg Hp Hbs. cbn [tc_branches_client].
       fold (tc_form D Sg) (tc_branches_client D Sg). go.
 Qed.
+
+Theorem tc_form_safe : forall f g shadow p, ctx_ok g -> wf_type D p -> safe (tc_form D Sg g shadow (Some p) f).
+Proof. intro f. apply (proj1 tc_safe f). Qed.
+End Forms.
+
+(* ---------- the preliminary checks establish the invariants ---------- *)
+Definition has_ty (n : name) : bool := match nty n with Some _ => true | None => false end.
+Definition names_ok (ns : list name) : Prop := Forall (fun n => oty_ok (nty n)) ns.
+Definition fun_ok (f : fundef) : Prop := oty_ok (fn_type f) /\ names_ok (fn_params f).
+Definition proc_ok (p : procdef) : Prop := oty_ok (pr_type p).
+
+Lemma add_missing_names_spec : forall ns, forallb has_ty ns = true ->
+  exists ns', add_missing_names D ns = TOk ns' /\ forallb has_ty ns' = true.
+Proof.
+  induction ns as [|n ns IH]; cbn [add_missing_names forallb]; intros H.
+  - exists []. split; reflexivity.
+  - apply andb_prop in H. destruct H as [Hn Hns]. destruct (IH Hns) as (ns' & E & Hns').
+    unfold has_ty in Hn. destruct (nty n) as [t|] eqn:Et; [|discriminate].
+    destruct (add_missing_total D t HD) as [t' Ht']. cbn [add_missing_opt]. rewrite Ht'. cbn [lift tbind].
+    rewrite E. cbn [tbind]. eexists. split; [reflexivity|]. cbn. auto.
+Qed.
+
+Lemma types_of_wf : forall ns, forallb has_ty ns = true -> sanity_types D (types_of ns) = true -> names_ok ns.
+Proof.
+  unfold sanity_types. induction ns as [|n ns IH]; cbn [forallb types_of flat_map]; intros H Hs; [constructor|].
+  apply andb_prop in H. destruct H as [Hn Hns]. unfold has_ty in Hn.
+  destruct (nty n) as [t|] eqn:Et; [|discriminate]. cbn [app forallb] in Hs.
+  apply andb_prop in Hs. destruct Hs as [Ht Hs].
+  constructor; [rewrite Et; exact Ht | apply IH; auto].
+Qed.
+
+Lemma prelim_funs_spec : forall fs seen,
+  safe (prelim_funs D fs seen) /\ (forall fs', prelim_funs D fs seen = TOk fs' -> Forall fun_ok fs').
+Proof.
+  induction fs as [|f fs IH]; intros seen; cbn [prelim_funs].
+  - split; [exact I|]. intros fs' H. inversion H; subst. constructor.
+  - destruct (negb (str_mem (fn_name f) seen)); cbn [guard tbind]; [|split; [exact I | discriminate]].
+    destruct (fn_type f) as [ft|] eqn:Eft; cbn [guard tbind]; [|split; [exact I | discriminate]].
+    fold has_ty. fold (forallb has_ty (fn_params f)).
+    destruct (forallb has_ty (fn_params f)) eqn:Eps; cbn [guard tbind]; [|split; [exact I | discriminate]].
+    destruct (all_names_unique (fn_params f)); cbn [guard tbind]; [|split; [exact I | discriminate]].
+    destruct (add_missing_total D ft HD) as [ft' Hft']. cbn [add_missing_opt]. rewrite Hft'. cbn [lift tbind].
+    destruct (add_missing_names_spec _ Eps) as (ps & Eps' & Hps). rewrite Eps'. cbn [tbind].
+    destruct (sanity_types D ([ft'] ++ types_of ps)) eqn:Es; cbn [guard tbind]; [|split; [exact I | discriminate]].
+    unfold sanity_types in Es. rewrite forallb_app in Es. apply andb_prop in Es. destruct Es as [Es1 Es2].
+    cbn [forallb] in Es1. apply andb_prop in Es1. destruct Es1 as [Hwft _].
+    pose proof (types_of_wf _ Hps Es2) as Hok.
+    assert (Hind : safe (indep_all (map nty ps) (Some ft'))).
+    { apply indep_all_safe; auto. clear - Hok. induction Hok; cbn; constructor; auto. }
+    destruct (indep_all (map nty ps) (Some ft')) as [[]| | |] eqn:Ei; cbn [tbind]; try (split; [exact I | discriminate]);
+      try contradiction.
+    destruct (IH (fn_name f :: seen)) as [Hs Hr].
+    destruct (prelim_funs D fs (fn_name f :: seen)) as [r'| | |]; cbn [tbind]; try (split; [exact I | discriminate]);
+      try contradiction.
+    split; [exact I|]. intros fs' H. inversion H; subst. constructor; auto.
+    split; cbn; auto.
+Qed.
+
+Lemma prelim_procs_types_spec : forall ps assumed procsn,
+  safe (prelim_procs_types D ps assumed procsn) /\
+  (forall ps' a', prelim_procs_types D ps assumed procsn = TOk (ps', a') -> Forall proc_ok ps').
+Proof.
+  induction ps as [|p ps IH]; intros assumed procsn; cbn [prelim_procs_types].
+  - split; [exact I|]. intros ps' a' H. inversion H; subst. constructor.
+  - destruct (pr_type p) as [pt|] eqn:Ept; cbn [guard tbind]; [|split; [exact I | discriminate]].
+    destruct (add_missing_total D pt HD) as [pt' Hpt']. cbn [add_missing_opt]. rewrite Hpt'. cbn [lift tbind].
+    destruct (sanity_types D ([pt'])) eqn:Es; cbn [guard tbind]; [|split; [exact I | discriminate]].
+    unfold sanity_types in Es. cbn [forallb] in Es. apply andb_prop in Es. destruct Es as [Hw _].
+    match goal with |- context [guard ?b ?w] => destruct b end; cbn [guard tbind]; [|split; [exact I | discriminate]].
+    destruct (use_free_names _ assumed procsn) as [[a1 p1]| | |] eqn:Eu; cbn [tbind];
+      try (split; [exact I | discriminate]).
+    + destruct (IH a1 p1) as [Hs Hr].
+      destruct (prelim_procs_types D ps a1 p1) as [[r' a'']| | |]; cbn [tbind];
+        try (split; [exact I | discriminate]); try contradiction.
+      split; [exact I|]. intros ps' a' H. inversion H; subst. constructor; [exact Hw | eapply Hr; eauto].
+    + exfalso. clear - Eu. revert assumed procsn Eu.
+      induction (names_first_only (free_names (pr_body p)) (pr_providers p)) as [|fn r IHr]; cbn [use_free_names]; intros a q E;
+        [discriminate|].
+      destruct (alookup (ident fn) a) as [[]|]; try discriminate; eauto.
+      destruct (alookup (ident fn) q) as [[]|]; try discriminate; eauto.
+    + exfalso. clear - Eu. revert assumed procsn Eu.
+      induction (names_first_only (free_names (pr_body p)) (pr_providers p)) as [|fn r IHr]; cbn [use_free_names]; intros a q E;
+        [discriminate|].
+      destruct (alookup (ident fn) a) as [[]|]; try discriminate; eauto.
+      destruct (alookup (ident fn) q) as [[]|]; try discriminate; eauto.
+Qed.
+
+Lemma prelim_procs_spec : forall ps assumed,
+  safe (prelim_procs D ps assumed) /\
+  (forall ps' a', prelim_procs D ps assumed = TOk (ps', a') -> Forall proc_ok ps' /\ names_ok a').
+Proof.
+  intros ps assumed. unfold prelim_procs.
+  destruct (all_names_unique assumed); cbn [guard tbind]; [|split; [exact I | discriminate]].
+  fold has_ty. fold (forallb has_ty assumed).
+  destruct (forallb has_ty assumed) eqn:Ea; cbn [guard tbind]; [|split; [exact I | discriminate]].
+  destruct (add_missing_names_spec _ Ea) as (as' & Eas & Has). rewrite Eas. cbn [tbind].
+  destruct (sanity_types D (types_of as')) eqn:Es; cbn [guard tbind]; [|split; [exact I | discriminate]].
+  pose proof (types_of_wf _ Has Es) as Hok.
+  destruct (providers_unique ps []); cbn [guard tbind]; [|split; [exact I | discriminate]].
+  match goal with |- context [guard ?b ?w] => destruct b end; cbn [guard tbind]; [|split; [exact I | discriminate]].
+  match goal with |- context [prelim_procs_types D ps ?a ?q] =>
+    destruct (prelim_procs_types_spec ps a q) as [Hs Hr]; destruct (prelim_procs_types D ps a q) as [[ps1 rem]| | |] end;
+    cbn [tbind]; try (split; [exact I | discriminate]); try contradiction.
+  destruct (negb (existsb snd rem)); cbn [guard tbind]; [|split; [exact I | discriminate]].
+  split; [exact I|]. intros ps' a' H. inversion H; subst. split; auto. eapply Hr; eauto.
+Qed.
+
+Lemma sig_lookup_in : forall Sg fn sg, sig_lookup Sg fn = Some sg -> In sg Sg.
+Proof.
+  induction Sg as [|s Sg IH]; cbn; intros fn sg H; [discriminate|].
+  destruct (sig_lookup Sg fn) eqn:E.
+  - inversion H; subst. right. eauto.
+  - destruct (String.eqb fn (fs_name s)); [inversion H; subst; auto | discriminate].
+Qed.
+
+Lemma make_sigma_spec : forall fs, Forall fun_ok fs ->
+  exists Sg, make_sigma D fs = TOk Sg /\ Forall sig_ok Sg.
+Proof.
+  induction 1 as [|f fs [Hft Hps] Hfs IH]; cbn [make_sigma].
+  - exists []. split; [reflexivity | constructor].
+  - destruct IH as (Sg & E & HSg). destruct (fn_type f) as [ft|]; [|contradiction]. cbn [oty_ok] in Hft.
+    destruct (unfold_wf D ft HD Hft) as (u & Hu & Hn & Hw). cbn [unfold_opt]. rewrite Hu. cbn [lift tbind].
+    rewrite E. cbn [tbind]. eexists. split; [reflexivity|]. constructor; auto. split; cbn; auto.
+Qed.
+
+Lemma make_ctx_ok : forall ns, names_ok ns -> ctx_ok (make_ctx ns).
+Proof.
+  unfold make_ctx. intros ns H. assert (Hacc : ctx_ok []) by constructor. revert Hacc. generalize (@nil (string * option sty)).
+  induction H as [|n ns Hn Hns IH]; cbn [fold_left]; intros acc Hacc; auto.
+  apply IH. apply aset_ok; auto.
+Qed.
+
+Lemma tc_funs_safe : forall Sg fs, sigma_ok Sg -> Forall fun_ok fs -> safe (tc_funs D Sg fs).
+Proof.
+  intros Sg fs HSg. induction 1 as [|f fs [Hft Hps] Hfs IH]; cbn [tc_funs]; [exact I|].
+  destruct (fn_type f) as [ft|]; [|contradiction]. cbn [oty_ok] in Hft.
+  apply safe_bind_any; [apply tc_form_safe; auto; apply make_ctx_ok; auto | intro].
+  apply safe_bind_any; [exact IH | intro; exact I].
+Qed.
+
+(* getFreeNameTypes: every name it hands out carries the (well-formed) type of its declaration *)
+Definition vals_ok (m : list (string * name)) : Prop := Forall (fun kv => oty_ok (nty (snd kv))) m.
+Lemma vals_aremove : forall k m, vals_ok m -> vals_ok (aremove k m).
+Proof.
+  induction 1 as [|[k' v] m Hv Hm IH]; cbn; [constructor|].
+  destruct (String.eqb k k'); auto. constructor; auto.
+Qed.
+Lemma vals_alookup : forall k m v, vals_ok m -> alookup k m = Some v -> oty_ok (nty v).
+Proof.
+  induction 1 as [|[k' v'] m Hv Hm IH]; cbn; intros H; [discriminate|].
+  destruct (String.eqb k k'); [inversion H; subst; auto | auto].
+Qed.
+
+Lemma available_names_ok : forall ps assumed, Forall proc_ok ps -> names_ok assumed -> vals_ok (available_names ps assumed).
+Proof.
+  intros ps assumed Hps Has. unfold available_names.
+  assert (H1 : vals_ok (fold_left (fun m kv => aset (fst kv) (snd kv) m)
+                (flat_map (fun p => map (fun n => (ident n, set_nty n (pr_type p))) (pr_providers p)) ps) [])).
+  { assert (Hl : Forall (fun kv : string * name => oty_ok (nty (snd kv)))
+                   (flat_map (fun p => map (fun n => (ident n, set_nty n (pr_type p))) (pr_providers p)) ps)).
+    { clear - Hps. induction Hps as [|p ps Hp Hps IH]; cbn [flat_map]; [constructor|].
+      apply Forall_app. split; auto. clear - Hp. induction (pr_providers p); cbn; constructor; auto. }
+    assert (Hacc : vals_ok []) by constructor. revert Hacc. generalize (@nil (string * name)).
+    induction Hl as [|kv l Hkv Hl IH]; cbn [fold_left]; intros acc Hacc; auto.
+    apply IH. constructor; auto. apply vals_aremove; auto. }
+  revert H1. generalize (fold_left (fun m kv => aset (fst kv) (snd kv) m)
+                (flat_map (fun p => map (fun n => (ident n, set_nty n (pr_type p))) (pr_providers p)) ps) []).
+  induction Has as [|a assumed Ha Has IH]; cbn [fold_left]; intros acc Hacc; auto.
+  apply IH. constructor; auto. apply vals_aremove; auto.
+Qed.
+
+Lemma free_name_types_ok : forall p ps assumed, Forall proc_ok ps -> names_ok assumed -> names_ok (free_name_types p ps assumed).
+Proof.
+  intros p ps assumed Hps Has. unfold free_name_types.
+  pose proof (available_names_ok _ _ Hps Has) as Hav.
+  induction (names_first_only (free_names (pr_body p)) (pr_providers p)) as [|fn r IH]; cbn [flat_map]; [constructor|].
+  destruct (alookup (ident fn) (available_names ps assumed)) as [n|] eqn:E; cbn [app]; auto.
+  constructor; auto. eapply vals_alookup; eauto.
+Qed.
+
+Lemma tc_procs_safe : forall Sg all assumed ps, sigma_ok Sg -> Forall proc_ok all -> names_ok assumed ->
+  Forall proc_ok ps -> safe (tc_procs D Sg all assumed ps).
+Proof.
+  intros Sg all assumed ps HSg Hall Has. induction 1 as [|p ps Hp Hps IH]; cbn [tc_procs]; [exact I|].
+  unfold proc_ok in Hp. destruct (pr_type p) as [pt|]; [|contradiction]. cbn [oty_ok] in Hp.
+  apply safe_bind_any; [apply tc_form_safe; auto; apply make_ctx_ok, free_name_types_ok; auto | intro].
+  apply safe_bind_any; [exact IH | intro; exact I].
+Qed.
 End Env.
+
+(* ---------- typecheckFunctionsAndProcesses ---------- *)
+Theorem tc_program_safe : forall p, safe (tc_program p).
+Proof.
+  intro p. unfold tc_program.
+  destruct (sanity_typedefs_total (p_types p)) as [b Hb]. rewrite Hb. cbn [lift tbind].
+  destruct b; cbn [guard tbind]; [|exact I].
+  assert (HD : wf_env (p_types p)) by exact Hb.
+  destruct (prelim_funs_spec _ HD (p_funs p) []) as [Hs1 Hr1].
+  apply safe_bind; [exact Hs1 | intros fs Efs]. pose proof (Hr1 _ Efs) as Hfs.
+  destruct (prelim_procs_spec _ HD (p_procs p) (p_assumed p)) as [Hs2 Hr2].
+  apply safe_bind; [exact Hs2 | intros [ps assumed] Eps]. destruct (Hr2 _ _ Eps) as [Hps Has].
+  destruct (make_sigma_spec _ HD fs Hfs) as (Sg & ESg & HSg). rewrite ESg. cbn [tbind].
+  assert (HSg' : sigma_ok (p_types p) Sg).
+  { intros fn sg H. rewrite Forall_forall in HSg. apply HSg. eapply sig_lookup_in; eauto. }
+  apply safe_bind_any; [apply tc_funs_safe; auto | intro].
+  apply safe_bind_any; [apply tc_procs_safe; auto | intro; exact I].
+Qed.
+
+(* C09 (model half): for EVERY program, process.Typecheck's computation yields a verdict:
+   it neither panics internally nor diverges *)
+Theorem tc_total_all : forall p, (forall w, typecheck p <> RejectInternal w) /\ (forall w, typecheck p <> Diverge w).
+Proof.
+  intro p. pose proof (tc_program_safe p) as H. unfold typecheck.
+  destruct (tc_program p); cbn in H; split; intros w E; try discriminate; contradiction.
+Qed.
+
+(* the statement of DESIGN.md 6/C09: for every program the parser produces *)
+Definition parsed (p : program) : Prop := exists s, parse_string s = POk p.
+Theorem tc_total : forall p, parsed p ->
+  (forall w, typecheck p <> RejectInternal w) /\ (forall w, typecheck p <> Diverge w).
+Proof. intros p _. apply tc_total_all. Qed.
 End Total.
